@@ -141,6 +141,9 @@ def r2_copy_branches(chk):
         init = prog.method(ci, "__init__")
         chk.require(init is not None and init.cls == ci, f"{ci.name}.__init__ vanished")
         chk.analysed(init)
+        from ..canon import lift_ifexp_assign
+
+        init = lift_ifexp_assign(init)  # `x = src.f if isinstance(src, K) else d` is a copy arm too
         key = f"{init.key}:copies-{cont}"
         # any statement in __init__ that moves other.<acc> (or ._cont) into self.<acc>/<cont>, under the type test
         src_names = {"other", "pm"}
@@ -181,6 +184,19 @@ def r2_copy_branches(chk):
                 for t in stores:
                     if nm in names_in(t.value) and order[id(t)] > order[id(s)]:
                         flows.append(("via-local", t))
+        # the same flow written as a loop: `self._x = []` ... `for e in src.x: self._x.append(F(e))`
+        for l in walk_no_nested(init.node):
+            if isinstance(l, ast.For) and isinstance(l.target, ast.Name):
+                var = copy_var(l)
+                if var is None or not mentions_src(l.iter, var):
+                    continue
+                for c in walk_no_nested(l):
+                    if isinstance(c, ast.Call) and isinstance(c.func, ast.Attribute) and c.func.attr == "append" and norm(c.func.value) in (f"self.{cont}", f"self.{acc}") \
+                            and len(c.args) == 1 and l.target.id in names_in(c.args[0]):
+                        pseudo = ast.copy_location(ast.Assign([c.func.value], c.args[0]), c)
+                        ast.fix_missing_locations(pseudo)
+                        arm = True
+                        flows.append(("direct", pseudo))
         if not arm or not flows:
             chk.fail("C06.R2", key, init.where(),
                      f"{ci.name}.__init__ has no flow from the source's {acc} into its own {cont} when copy-constructing: {ci.name}(m).{acc} "
